@@ -279,6 +279,11 @@ func (it *indexedMessageIterator) loadChunk(chunkIndex *ChunkIndex) error {
 	}
 	switch CompressionFormat(parsedChunk.Compression) {
 	case CompressionNone:
+		// an uncompressed chunk must hold exactly the bytes it declares; a reused slot would
+		// otherwise keep (and index) stale bytes of an earlier chunk behind a short payload.
+		if uint64(len(parsedChunk.Records)) != bufSize {
+			return fmt.Errorf("uncompressed chunk holds %d bytes but declares %d", len(parsedChunk.Records), bufSize)
+		}
 		copy(chunkSlot.buf, parsedChunk.Records)
 	case CompressionZSTD:
 		if it.zstdDecoder == nil {
